@@ -320,7 +320,7 @@ func run(c *hl.Ctx) error {
 		c.Emit(escCase(s))
 		c.Count("esc:corpus")
 	}
-	for i, n := 0, c.Pick(3000, 100000); i < n; i++ {
+	for i, n := 0, c.Pick(2000, 100000); i < n; i++ {
 		c.Emit(escCase(randString(r, r.Intn(12))))
 		c.Count("esc:random")
 	}
@@ -330,7 +330,7 @@ func run(c *hl.Ctx) error {
 		c.Emit(gradCase(s))
 		c.Count("grad:corpus")
 	}
-	for i, n := 0, c.Pick(3000, 100000); i < n; i++ {
+	for i, n := 0, c.Pick(2000, 100000); i < n; i++ {
 		c.Emit(gradCase(randGradient(r)))
 		c.Count("grad:random")
 	}
@@ -341,7 +341,7 @@ func run(c *hl.Ctx) error {
 		c.Count("svg:corpus")
 	}
 	runJobs(c, jobs)
-	total := c.Pick(600, 30000)
+	total := c.Pick(400, 30000)
 	feats := svgr.Features{}
 	for done := 0; done < total; {
 		jobs = jobs[:0]
